@@ -43,6 +43,8 @@ IDEMPOTENCE = [
     ('pre_process', r"module\['types'\] = types", "'parameters' not in type_descriptor", 'filtering parameterized types is a projection'),
     # the following operate on the deep copy made in step_1_type
     ('pre_process_parameterization_step_1_dummy_to_actual_type', r'.*', 'deepcopy-owned', 'operates on the deepcopy made by the caller'),
+    ('pre_process_default_value', r"member\['default'\] = member\['default'\] == 'TRUE'", "member['default'] in ['TRUE', 'FALSE']",
+     'a converted default is a bool and no longer one of the two strings'),
     # option-dependent by design (reported under R3 when it depends on an option)
     ('pre_process_default_value', r"member\['default'\] = value", 'key == member[\'default\']', 'ENUMERATED default name -> number (only under numeric_enums)'),
 ]
